@@ -353,6 +353,10 @@ func (e *FunctionCallExpr) Value(ctx *hcl.EvalContext) (cty.Value, hcl.Diagnosti
 	varParam := f.VarParam()
 
 	args := e.Args
+	// Marks of the collection given as an expanding argument. They are also
+	// applied to each of its elements, but when the collection is empty there
+	// is no element left to carry them, so the result itself must.
+	var expandMarks cty.ValueMarks
 	if e.ExpandFinal {
 		if len(args) < 1 {
 			// should never happen if the parser is behaving
@@ -380,7 +384,7 @@ func (e *FunctionCallExpr) Value(ctx *hcl.EvalContext) (cty.Value, hcl.Diagnosti
 				})
 				return cty.DynamicVal, diags
 			}
-			return cty.DynamicVal, diags
+			return cty.DynamicVal.WithSameMarks(expandVal), diags
 		case expandVal.Type().IsTupleType() || expandVal.Type().IsListType() || expandVal.Type().IsSetType():
 			if expandVal.IsNull() {
 				diags = append(diags, &hcl.Diagnostic{
@@ -396,13 +400,14 @@ func (e *FunctionCallExpr) Value(ctx *hcl.EvalContext) (cty.Value, hcl.Diagnosti
 				return cty.DynamicVal, diags
 			}
 			if !expandVal.IsKnown() {
-				return cty.DynamicVal, diags
+				return cty.DynamicVal.WithSameMarks(expandVal), diags
 			}
 
 			// When expanding arguments from a collection, we must first unmark
 			// the collection itself, and apply any marks directly to the
 			// elements. This ensures that marks propagate correctly.
 			expandVal, marks := expandVal.Unmark()
+			expandMarks = marks
 			newArgs := make([]Expression, 0, (len(args)-1)+expandVal.LengthInt())
 			newArgs = append(newArgs, args[:len(args)-1]...)
 			it := expandVal.ElementIterator()
@@ -629,7 +634,7 @@ func (e *FunctionCallExpr) Value(ctx *hcl.EvalContext) (cty.Value, hcl.Diagnosti
 		return cty.DynamicVal, diags
 	}
 
-	return resultVal, diags
+	return resultVal.WithMarks(expandMarks), diags
 }
 
 func (e *FunctionCallExpr) Range() hcl.Range {
